@@ -12,12 +12,15 @@ import (
 
 func init() {
 	register(&Rule{
-		ID: "PCW", Props: []string{"C11"}, Min: 2,
+		ID: "PCW", Props: []string{"C11"}, Min: 4,
 		Doc: `in pkg/obiapat._Pcr, for each pair (forward match fm, reverse match rm) kept because the insert length computed for it is positive, the bounds handed to Subsequence for the amplicon
 satisfy to - from >= length on every path (path enumeration with linear arithmetic over fm[0..1], rm[0..1], the length of the sequence, the flank length and the option flags, the one-line option
 getters being read through; assumed: a match ends after it starts, and the flank length is not negative when flanks are requested). When the amplicon goes through the origin of a circular sequence
 its length is computed with + len(sequence), so must be the upper bound: otherwise, as soon as the two flanks exceed the gap left on the circle, to - from is a small positive number and Subsequence
-returns a fragment of a few bases holding neither primer (110 nt circle, -D 21: 2 nt instead of 112) that carries the annotations of the real pair.`,
+returns a fragment of a few bases holding neither primer (110 nt circle, -D 21: 2 nt instead of 112) that carries the annotations of the real pair. Second obligation per extraction ("rotating a
+circular template does not change the set of amplicons"): on every path through the circular computation, the length tested by the guard is not negative — a residue modulo the length of the circle, 0 when the sites touch
+— assuming only that a match starts inside the sequence and is not longer than it; rm[0] + L − fm[1] alone is negative when the first site crosses the origin and the second starts inside its
+wrapped part, and the pair was kept or dropped depending on where the origin falls.`,
 		Run: runPCW,
 	})
 }
@@ -160,6 +163,7 @@ func runPCW(c *Ctx, s *Sink) {
 			}
 		}
 		linWalk([]linPath{start}, st.loop.Body.List, visit)
+		pcwResidue(c, s, info, env, i+1, st.as, st.loop, lengthObj, matchVars)
 		switch {
 		case nfail > 0:
 			if len(why) > 3 {
@@ -174,5 +178,134 @@ func runPCW(c *Ctx, s *Sink) {
 	}
 	if len(sites) == 0 {
 		s.Undecided(nil, "pkg/obiapat._Pcr", fd.Pos(), "no amplicon extraction found")
+	}
+}
+
+// pcwResidue: second obligation per extraction — on a circular template no pair is dropped because its length is negative.
+// G is the guard 'length > 0 && …' around the extraction; the statements before G in its block are walked under the conditions
+// enclosing G; on every path where the else-branch of 'second match starts after the first ends' is taken under the circular
+// option, length >= 0 must follow from: a match starts inside the sequence (m[0] < L, the guards of the loops) and a site is
+// not longer than the circle (m[1] <= m[0] + L).
+func pcwResidue(c *Ctx, s *Sink, info *types.Info, env0 *linEnv, n int, as *ast.AssignStmt, loop *ast.RangeStmt, lengthObj types.Object, matchVars map[string]bool) {
+	key := fmt.Sprintf("pkg/obiapat._Pcr:amplicon#%d:circular-length-is-a-residue", n)
+	// G and its block
+	var G *ast.IfStmt
+	var block *ast.BlockStmt
+	var stack []ast.Node
+	var conds []ast.Expr
+	ast.Inspect(loop.Body, func(nd ast.Node) bool {
+		if nd == nil {
+			stack = stack[:len(stack)-1]
+			return true
+		}
+		stack = append(stack, nd)
+		ifs, ok := nd.(*ast.IfStmt)
+		if !ok || G != nil || !(as.Pos() >= ifs.Body.Pos() && as.End() <= ifs.Body.End()) {
+			return true
+		}
+		for _, cj := range conjuncts(ifs.Cond) {
+			if b, ok := ast.Unparen(cj).(*ast.BinaryExpr); ok && b.Op.String() == ">" && rootObj(info, b.X) == lengthObj {
+				G = ifs
+			}
+		}
+		if G != nil {
+			for k := len(stack) - 2; k >= 0; k-- {
+				if bl, ok := stack[k].(*ast.BlockStmt); ok && block == nil {
+					block = bl
+				}
+				if up, ok := stack[k].(*ast.IfStmt); ok && k+1 < len(stack) && stack[k+1] == ast.Node(up.Body) {
+					conds = append(conds, up.Cond)
+				}
+			}
+		}
+		return true
+	})
+	if G == nil || block == nil {
+		s.Undecided(nil, key, as.Pos(), "guard on the insert length not found")
+		return
+	}
+	// the test that sends a pair to the wrapped computation: an if/else-if before G whose else-if condition is a getter call
+	var circ ast.Expr
+	var seqLen ast.Expr
+	for _, st := range block.List {
+		if st == ast.Stmt(G) {
+			break
+		}
+		if ifs, ok := st.(*ast.IfStmt); ok {
+			if el, ok := ifs.Else.(*ast.IfStmt); ok {
+				circ = el.Cond
+				ast.Inspect(el.Body, func(m ast.Node) bool {
+					if call, ok := m.(*ast.CallExpr); ok && seqLen == nil {
+						if sel, ok := call.Fun.(*ast.SelectorExpr); ok && sel.Sel.Name == "Len" && len(call.Args) == 0 {
+							seqLen = call
+						}
+					}
+					return true
+				})
+			}
+		}
+	}
+	if circ == nil || seqLen == nil {
+		s.Undecided(nil, key, G.Pos(), "no 'else if <circular>' computation of the length before the guard")
+		return
+	}
+	env := env0.clone()
+	start := linPath{env: env}
+	L, okL := env.form(seqLen, 0)
+	if !okL {
+		s.Undecided(nil, key, G.Pos(), "length of the sequence not linear")
+		return
+	}
+	for m := range matchVars {
+		a0, a1 := lfAtom(m+"[0]"), lfAtom(m+"[1]")
+		env.atoms[m+"[0]"], env.atoms[m+"[1]"] = true, true
+		start.sys = append(start.sys,
+			linLE(a0.add(lfConst(1), 1), a1), linLE(lfConst(0), a0),
+			linLE(a0.add(lfConst(1), 1), L), // starts inside the sequence
+			linLE(a1, a0.add(L, 1))) // not longer than the circle
+	}
+	for _, cnd := range conds {
+		if cs := env.cond(cnd, false); len(cs) == 1 {
+			start.sys = append(start.sys, cs[0]...)
+		}
+	}
+	var pre []ast.Stmt
+	for _, st := range block.List {
+		if st == ast.Stmt(G) {
+			break
+		}
+		pre = append(pre, st)
+	}
+	paths := linWalk([]linPath{start}, pre, func(linPath, ast.Stmt) {})
+	nc, bad := 0, ""
+	for _, pth := range paths {
+		pth.env.cur = pth.sys
+		// circular path: the negation of the circular test is infeasible here, and the first test failed
+		isCirc := true
+		for _, cs := range pth.env.cond(circ, true) {
+			if !append(append(linSys{}, pth.known()...), cs...).infeasible() {
+				isCirc = false
+			}
+		}
+		if !isCirc {
+			continue
+		}
+		nc++
+		length, ok := pth.env.vars[lengthObj]
+		if !ok || !pth.known().entails(linLE(lfConst(0), length)) || !pth.known().entails(linLE(length.add(lfConst(1), 1), L)) {
+			if ok {
+				bad = "length = " + length.String()
+			} else {
+				bad = "length unknown"
+			}
+		}
+	}
+	switch {
+	case nc == 0:
+		s.Undecided(nil, key, G.Pos(), "no path through the circular computation of the length")
+	case bad != "":
+		s.Fail(nil, key, G.Pos(), "on a circular template the insert length of a pair is not always a residue in 0..L-1 ("+bad+"): when the first site itself goes through the origin and the second starts inside its wrapped part, + L still leaves it negative and the pair is dropped (or, counted once too often, two touching sites give a whole turn of the circle), while the same molecule written from another origin keeps it (135 bp circle, sites at 40..60 and 55..75: the 130 bp amplicon is reported for 120 rotations and missing for the 15 rotations 41..55)")
+	default:
+		s.Pass(nil, key, G.Pos(), fmt.Sprintf("0 <= length < L on the %d path(s) through the circular computation: the guard drops touching sites only (assumed: a match starts inside the sequence and is not longer than it)", nc))
 	}
 }
